@@ -550,6 +550,15 @@ def spine : Prog → List Expr
   | .ite c t e => if isErrRet t && isSkip e && exprNoVar c then [c] else []
   | _ => []
 
+/-- the function's own body holds a statement that modifies a record (callees are programs of their own) -/
+def hasEffect : Prog → Bool
+  | .effect s => !s.startsWith "dispatch:"   -- the fallback of a dynamic dispatch is not a mutation
+  | .ite _ t e => hasEffect t || hasEffect e
+  | .seq a b => hasEffect a || hasEffect b
+  | .block p => hasEffect p
+  | .forEach _ _ b | .forIdx _ _ b => hasEffect b
+  | _ => false
+
 def isRetNil : Prog → Bool
   | .ret .nil => true
   | _ => false
